@@ -113,6 +113,10 @@ def gen_case(rng, tier, i):
         edits = gen_edits(rng, spec)
         if edits:
             case['edits'] = edits
+    if rng.random() < 0.25:
+        # the system aperture is changed after the first evaluation (no radius, thickness or medium is touched): every
+        # term and every operand is that of the lens as it is NOW
+        case['edits'] = (case.get('edits') or []) + [dict(op='aperture', k=0, f=round(float(rng.uniform(0.55, 0.85)), 4))]
     return case
 
 
@@ -168,6 +172,11 @@ def apply_edits(lens, spec, edits):
         elif e['op'] == 'thickness':
             lens.set_thickness(float(e['t']), k)
             sf['t'] = float(e['t'])
+        elif e['op'] == 'aperture':
+            typ, val = sp['aperture']
+            newv = float(val) / float(e['f']) if typ == 'imageFNO' else float(val) * float(e['f'])
+            lens.set_aperture(typ, newv)
+            sp['aperture'] = [typ, newv]
         else:
             raise ValueError(e)
     # the image-space medium of the spec follows the last optical surface
@@ -437,6 +446,14 @@ def after_edit(rec, lens, spec, edits, axial_only, finite):
     J2.compare_all(acc2, what=what)
     J2.compare_all(T2, what=what + 'third_order(): ')
     rec.event('surface_terms_compared_after_edit', 2 * (7 * (len(J2.inp['c']) - 2) + 5))
+    # the *_sum operands on the edited lens: sums of the terms of the lens as it is now
+    from optiland.optimization.operand.aberration import AberrationOperand as AO_
+    for nm in NAMES:
+        if nm in acc2 and hasattr(AO_, nm + '_sum'):
+            v_ = float(np.ravel(getattr(AO_, nm + '_sum')(lens))[0])
+            rec.close('operand-vs-accessor', v_, float(np.sum(acc2[nm])), 1e-12, scale=max(1e-300, float(np.sum(np.abs(acc2[nm])))),
+                      key='operand-vs-accessor:after-edit',
+                      msg=f'{what}AberrationOperand.{nm}_sum(optic) is not the sum of {nm}() of the lens as it is now')
     fresh = L.build(sp2)
     tf = fresh.aberrations.third_order()
     F = {nm: _arr(v) for nm, v in zip(NAMES, tf[:12])}
